@@ -24,6 +24,7 @@ const (
 	TArray
 	TDoc
 	TMissing
+	TFlatArr // modifier: elements of arrays are never arrays themselves
 )
 
 var tagNames = []string{"null", "int32", "int64", "double", "string", "bool", "date", "timestamp", "objectid", "binary", "regex", "array", "doc", "missing"}
@@ -173,7 +174,14 @@ func (in *Interp) materialize(l *Lazy, tag int) *Iface {
 		n := in.chooseN(id+".len", l.MaxLen+1)
 		d := make([]Value, n)
 		for i := range d {
-			d[i] = in.child(l, fmt.Sprintf("%s[%d]", id, i))
+			c := in.child(l, fmt.Sprintf("%s[%d]", id, i))
+			if l.Tags&TFlatArr != 0 {
+				c.Tags &^= TArray
+			}
+			d[i] = c
+		}
+		if n == 0 {
+			return &Iface{T: tc.named(primPkg, "A"), V: SliceV{D: []Value{}}}
 		}
 		return &Iface{T: tc.named(primPkg, "A"), V: SliceV{D: d}}
 	case TDoc:
